@@ -40,13 +40,60 @@ fn outcome_text(r: &RealRun) -> String {
 }
 
 /// what is wrong with this program under `spec` (None = nothing); (class, which twin, detail)
+thread_local! {
+    /// outcome tags of the last pair of real runs (literal twin, hidden twin)
+    static LAST_TAGS: std::cell::RefCell<(String, String)> = std::cell::RefCell::new((String::new(), String::new()));
+}
+
+struct Cleanup(Vec<String>);
+impl Drop for Cleanup {
+    fn drop(&mut self) {
+        for p in &self.0 {
+            let _ = std::fs::remove_file(p);
+        }
+    }
+}
+
 pub fn examine(body: &[S], spec: &Spec, rep: Option<&mut Report>) -> Option<(String, String, String)> {
+    let mut rep = rep;
     let text_a = prog::program_text(body, Mode::Literal);
-    let text_b = prog::program_text(body, Mode::Hidden);
+    // C06: "a module or import yields exactly its own top-level names" - the hidden twin of a program with modules
+    // imports them from files (an import is a module whose body is read from a file; both see the enclosing scope)
+    let has_module = spec.prop == "C06" && prog::constructs(body).iter().any(|c| c == "mod");
+    let (text_b, files) = if has_module {
+        let dir = format!("/verif/target/scratch/imp-{}", std::process::id());
+        let _ = std::fs::create_dir_all(&dir);
+        crate::ast::print_program_imports(body, Mode::Hidden, &dir)
+    } else {
+        (prog::program_text(body, Mode::Hidden), Vec::new())
+    };
+    for (path, text) in &files {
+        if std::fs::write(path, text).is_err() {
+            panic!("cannot write scratch import file {path}");
+        }
+    }
+    let _cleanup = Cleanup(files.iter().map(|(p, _)| p.clone()).collect());
+    if let Some(rep) = rep.as_deref_mut().filter(|_| has_module) {
+        rep.count("programs-with-modules-run-as-imports");
+    }
     // the reference is always run: even where it is not compared, it tells whether an execution depends on a
     // value the documentation leaves open (attribution of panics to the exhausted-payload finding of C01)
     let reference = Some(run_ref(body, REF_FUEL));
-    examine_texts(&text_a, &text_b, reference, spec, rep)
+    let found = examine_texts(&text_a, &text_b, reference, spec, rep.as_deref_mut());
+    if has_module {
+        // the import form may only be rejected when the module form is (same checker, same text); the literal
+        // form may additionally be rejected by a failing constant (permitted, C04)
+        let (a, b) = LAST_TAGS.with(|t| t.borrow().clone());
+        let rejected = |t: &str| t.starts_with("rejected:");
+        if b == "rejected:IO" {
+            panic!("scratch import file unreadable");
+        }
+        if found.is_none() && rejected(&a) != rejected(&b) && !a.starts_with("rejected-runtime-error:") {
+            let (class, which) = if rejected(&a) { ("import-accepted-module-rejected", "A") } else { ("module-accepted-import-rejected", "B") };
+            return Some((class.into(), which.into(), format!("`mod {{..}}` form: {a}; `import` form: {b}")));
+        }
+    }
+    found
 }
 
 /// the same judgement from program texts (the reference run is optional: it needs the AST)
@@ -54,6 +101,7 @@ pub fn examine_texts(text_a: &str, text_b: &str, reference: Option<prog::RefRun>
     let judge = Judge { value: spec.ref_value, log: spec.ref_log };
     let a = run_real(text_a, FUEL);
     let b = run_real(text_b, FUEL);
+    LAST_TAGS.with(|t| *t.borrow_mut() = (a.outcome.tag(), b.outcome.tag()));
     let mut rep = rep;
     if spec.prop == "C13" {
         for (which, run) in [("A", &a), ("B", &b)] {
